@@ -182,7 +182,9 @@ pub fn run_schedule(rec: &mut Rec, seed: u64, run: u64, line: &str) {
         p.make_vault_fee(2, v2);
         if c["pre"].as_u64().unwrap() > 0 {
             let col = p.f.hub.collector.clone();
-            p.f.w.mint_native(&col, "uwhale", r.gen_range(1..=5_000_000u128));
+            // also at the magnitudes of 18-decimal distribution assets, where 128-bit products of balance and rate overflow
+            let amt = match run % 3 { 0 => r.gen_range(1..=5_000_000u128), 1 => gen::log_uniform(&mut r, 1_000_000_000_000_000_000, 1_000_000_000_000_000_000_000_000), _ => gen::log_uniform(&mut r, 1, 1u128 << 100) };
+            p.f.w.mint_native(&col, "uwhale", amt);
         }
         if route == "fails" {
             // far more than the pool can absorb within the 50 % spread the collector allows
